@@ -1,0 +1,30 @@
+//go:build verif
+
+package search
+
+import (
+	"context"
+
+	"github.com/sourcegraph/zoekt"
+	"github.com/sourcegraph/zoekt/index"
+)
+
+// VerifCollect feeds the batches, in order, to one real collectSender and returns what Done returns.
+// Verification hook; not part of the normal build.
+func VerifCollect(opts *zoekt.SearchOptions, batches []*zoekt.SearchResult) (*zoekt.SearchResult, bool) {
+	c := newCollectSender(opts)
+	for _, b := range batches {
+		c.Send(b)
+	}
+	return c.Done()
+}
+
+// VerifLimitSender wraps sender in the real limitSender with a fresh truncator for opts (nil if opts has no
+// display limit, as in StreamSearch). cancel is called by limitSender once the truncator is exhausted.
+func VerifLimitSender(opts *zoekt.SearchOptions, cancel context.CancelFunc, sender zoekt.Sender) zoekt.Sender {
+	truncator, hasLimits := index.NewDisplayTruncator(opts)
+	if !hasLimits {
+		return nil
+	}
+	return limitSender(cancel, sender, truncator)
+}
